@@ -53,7 +53,7 @@ type RandomLayout struct {
 	Comments, Conts, Linebreaks bool
 }
 
-var commentTexts = []string{EmptyComment, " caf\u00e9\u0301 \uFFFD \U0001F600\u00a0", " cr\r", " c", "x", " note: a;b|c", " é 日", "!", " # nested #", " 'q' \"d\" $x `c`", "  two  blanks"}
+var commentTexts = []string{EmptyComment, " caf\u00e9\u0301 \uFFFD \U0001F600\u00a0", " cr\r", " c", "x", " note: a;b|c", " é 日", "!", " # nested #", " 'q' \"d\" $x `c`", "  two  blanks", " ends in \\", "\\", " a\\b \\"}
 
 var commentTextsBq = func() []string {
 	var out []string
